@@ -181,6 +181,23 @@ def run(tier: str) -> Run:
                      {'outcome': [(o.kind, o.exc_type) for o in outs]}, key=f'{cname}:refuse-{label}')
 
     # ---- polynomial -------------------------------------------------------------
+    # the refusal does not depend on what other models of the same class and prefix were evaluated with before
+    for label, first_kw, second_kw, names in (
+            ('a polynomial of degree 1 after one of degree 2 with the same prefix', {'degree': 2}, {'degree': 1}, ['bkg_a0', 'bkg_a1', 'bkg_a2']),
+            ('a polynomial of degree 3 after one of degree 2 with the same prefix', {'degree': 2}, {'degree': 3}, ['bkg_a0', 'bkg_a1', 'bkg_a2'])):
+        T.reset()
+        it = Interp(repo, Model())
+
+        def go_h(i, first_kw=first_kw, second_kw=second_kw, names=names):
+            ps = lambda: {n_: make_param(i, n_[4:], P(dim='ONE', positive=False, unit=Unit.param('y') / (UX ** int(n_[-1])))) for n_ in names}  # noqa: E731
+            call_model(repo, i, build(repo, i, 'PolynomialModel', prefix='bkg_', **first_kw), ps())
+            i.end_of_call()
+            return call_model(repo, i, build(repo, i, 'PolynomialModel', prefix='bkg_', **second_kw), ps())
+        outs_h = it.run_all(go_h)
+        ok = bool(outs_h) and all(o.kind == 'raise' and o.exc_type in ('ValueError', 'KeyError', 'TypeError') for o in outs_h)
+        r4.check(ok, f'history: {label}, called with {names}', loc(repo.func(MOD, 'Model.__call__')),
+                 {'outcomes': [(o.kind, o.exc_type, o.where) for o in outs_h], 'documented': 'refused: the names are not the parameters of this model'}, key='history:polynomial')
+
     r5 = run.rule('R5', 'polynomial equals sum a_i x^i (Horner loop), unit u(a0); float64 result for float32 / integer x', 4)
     degrees = (1, 2, 3) if tier == 'quick' else (1, 2, 3, 4, 5, 6)
     pwhere = where_of(repo, MOD, 'PolynomialModel._call', 'PolynomialModel.__call__', 'Model.__call__')
